@@ -4,7 +4,9 @@ import (
 	"fmt"
 	"os"
 	"path/filepath"
+	"sort"
 	"strings"
+	"time"
 
 	"github.com/juev/hledger-lsp/internal/server"
 	"github.com/juev/hledger-lsp/internal/verifx/core"
@@ -285,6 +287,24 @@ func c14Run(dir string, sc c14Scenario, prefix []int) (vsched.Result, any) {
 
 func checkC14(c *core.Ctx) {
 	scs := c14Scenarios(c.Thorough())
+	nquick := len(scs)
+	if c.Replay == nil {
+		// as in C13: everything completely at the quick bounds first, then the
+		// deeper bounds of the thorough tier inside shares of the remaining budget
+		scs = c14Scenarios(false)
+		nquick = len(scs)
+		if c.Thorough() {
+			quickBound := map[string]int{}
+			for _, q := range scs {
+				quickBound[q.Name] = q.Bound
+			}
+			for _, d := range c14Scenarios(true) {
+				if d.Bound > quickBound[d.Name] {
+					scs = append(scs, d)
+				}
+			}
+		}
+	}
 	if c.Replay != nil {
 		var cs c14Case
 		if err := jsonUnmarshal(c.Replay, &cs); err != nil {
@@ -320,8 +340,21 @@ func checkC14(c *core.Ctx) {
 		}
 		return st.Size()
 	}
-	for _, sc := range scs {
-		sc := sc
+	execs := map[string]int64{}
+	for si := 0; si < len(scs); si++ {
+		if si == nquick {
+			// cheapest first: what the cheap scenarios leave of their shares goes to the expensive ones
+			sort.SliceStable(scs[nquick:], func(a, b int) bool { return execs[scs[nquick+a].Name] < execs[scs[nquick+b].Name] })
+		}
+		sc := scs[si]
+		stop := c.Expired
+		label := sc.Name
+		if si >= nquick {
+			label = fmt.Sprintf("%s, deeper (bound %d)", sc.Name, sc.Bound)
+			share := time.Until(c.Deadline) / time.Duration(len(scs)-si)
+			until := time.Now().Add(share)
+			stop = func() bool { return c.Expired() || time.Now().After(until) }
+		}
 		dir := c14Dir(c, sc)
 		want := c14Sequential(dir, sc, nil)
 		want2 := c14Sequential(dir, sc, nil)
@@ -344,7 +377,7 @@ func checkC14(c *core.Ctx) {
 		outcomes := map[string]bool{}
 		lastRace := raceSize()
 		ex := &explore.Explorer{
-			Bound: sc.Bound, Shard: c.Shard, NShards: c.NShards, Stop: c.Expired,
+			Bound: sc.Bound, Shard: c.Shard, NShards: c.NShards, Stop: stop,
 			Run: func(prefix []int) (vsched.Result, any) { return c14Run(dir, sc, prefix) },
 			Check: func(choices []int, r vsched.Result, obs any, pre int) {
 				o := obs.([]string)
@@ -376,13 +409,20 @@ func checkC14(c *core.Ctx) {
 			return
 		}
 		if ex.Stopped {
-			c.Cap("stopped inside scenario " + sc.Name)
+			c.Cap("stopped inside scenario " + label)
+		}
+		if si < nquick {
+			execs[sc.Name] = int64(ex.Executions)
 		}
 		c.Res.States += ex.Executions
 		c.Res.Transitions += ex.Transitions
 		c.Res.Traces += ex.Executions
-		c.Res.Outcomes[sc.Name] = int64(len(outcomes))
-		c.Bound(sc.Name, fmt.Sprintf("preemption bound %d, %d messages, max %d points, %d threads", sc.Bound, len(sc.Msgs), ex.MaxPoints, ex.MaxThreads))
+		c.Res.Outcomes[label] = int64(len(outcomes))
+		complete := "complete"
+		if ex.Stopped {
+			complete = fmt.Sprintf("stopped after %d executions", ex.Executions)
+		}
+		c.Bound(label, fmt.Sprintf("preemption bound %d, %d messages, max %d points, %d threads, %s", sc.Bound, len(sc.Msgs), ex.MaxPoints, ex.MaxThreads, complete))
 		if c.Expired() {
 			return
 		}
